@@ -155,7 +155,9 @@ pub fn exec_more(t: &[&str]) -> R {
                 let again = key_of::<V, K>(&enc1).map_err(|e| format!("redecode-{}", en(e)))?;
                 let enc3 = again.expose_key().as_raw_bytes().to_vec();
                 let ids = key.id().to_string() == re.id().to_string() && key.id().to_string() == key.clone().id().to_string();
-                Ok(format!("idem={} clone={} text={} ids={} len={}", (enc1 == enc3) as u8, (enc1 == enc_clone) as u8, (enc1 == enc2) as u8, ids as u8, enc1.len()))
+                // an accepted key is then *used* in every operation that takes its kind (errors are fine, panics are not)
+                let used = use_key::<V>(k, &enc1);
+                Ok(format!("idem={} clone={} text={} ids={} len={} used={}", (enc1 == enc3) as u8, (enc1 == enc_clone) as u8, (enc1 == enc2) as u8, ids as u8, enc1.len(), used))
             }))
         }
         // secret key -> public key: equals the public half of the serialisation (Ed25519) and verifies what the key signs
@@ -221,4 +223,75 @@ pub fn exec_more(t: &[&str]) -> R {
         }
         _ => crate::exec6::exec_more(t),
     }
+}
+
+
+/// use an accepted key in every operation that takes its kind; returns "<ok count>/<err count>"
+fn use_key<V>(k: Kind, raw: &[u8]) -> String
+where
+    V: paseto_core::version::SealingVersion<Local>
+        + paseto_core::version::SealingVersion<paseto_core::version::Public>
+        + paseto_core::paserk::PieWrapVersion
+        + paseto_core::paserk::PkeSealingVersion
+        + paseto_core::paserk::PkeUnsealingVersion
+        + paseto_core::paserk::IdVersion,
+{
+    use paseto_core::tokens::{SealedToken, UnsealedToken};
+    use paseto_core::validation::NoValidation;
+    use paseto_core::version::{PkePublic, PkeSecret, Public};
+    use std::str::FromStr;
+    let (mut ok, mut err) = (0u32, 0u32);
+    let mut tally = |r: bool| if r { ok += 1 } else { err += 1 };
+    let nv = || NoValidation::<Raw>::dangerous_no_validation();
+    match k {
+        Kind::Local => {
+            if let Ok(key) = key_of::<V, Local>(raw) {
+                let t = UnsealedToken::<V, Local, Raw>::new(Raw(b"m".to_vec())).encrypt(&key).map(|t| t.to_string());
+                tally(t.is_ok());
+                if let Ok(t) = t {
+                    tally(SealedToken::<V, Local, Raw>::from_str(&t).ok().and_then(|t| t.decrypt(&key, &nv()).ok()).is_some());
+                }
+                tally(key_of::<V, Local>(&[3u8; 32]).ok().and_then(|x| x.wrap_pie(&key).ok()).is_some());
+                tally(key_of::<V, Local>(raw).ok().and_then(|x| x.wrap_pie(&key).ok()).is_some());
+            }
+        }
+        Kind::Secret => {
+            if let Ok(key) = key_of::<V, Secret>(raw) {
+                let pk = key.public_key();
+                let t = UnsealedToken::<V, Public, Raw>::new(Raw(b"m".to_vec())).sign(&key).map(|t| t.to_string());
+                tally(t.is_ok());
+                if let Ok(t) = t {
+                    tally(SealedToken::<V, Public, Raw>::from_str(&t).ok().and_then(|t| t.verify(&pk, &nv()).ok()).is_some());
+                }
+                tally(key_of::<V, Local>(&[3u8; 32]).ok().and_then(|w| key_of::<V, Secret>(raw).ok().and_then(|k2| k2.wrap_pie(&w).ok())).is_some());
+                let _ = pk.id();
+            }
+        }
+        Kind::Public => {
+            if let Ok(key) = key_of::<V, Public>(raw) {
+                // a token with a well-sized but bogus signature: must be an error, never a panic
+                for len in [0usize, 1, 64, 96, 97, 256, 300] {
+                    let body = crate::gen_text::b64(&vec![0x5au8; len]);
+                    let s = format!("{}.public.{}", V::HEADER, body);
+                    tally(SealedToken::<V, Public, Raw>::from_str(&s).ok().and_then(|t| t.verify(&key, &nv()).ok()).is_some());
+                }
+                let _ = key.id();
+                let _ = key.to_string();
+            }
+        }
+        Kind::PkePublic => {
+            if let Ok(key) = key_of::<V, PkePublic>(raw) {
+                tally(key_of::<V, Local>(&[3u8; 32]).ok().and_then(|x| x.seal(&key).ok()).is_some());
+            }
+        }
+        Kind::PkeSecret => {
+            if let Ok(key) = key_of::<V, PkeSecret>(raw) {
+                for len in [0usize, 95, 96, 97, 128, 129, 592] {
+                    let s = format!("{}.seal.{}", V::PASERK_HEADER, crate::gen_text::b64(&vec![0x5au8; len]));
+                    tally(paseto_core::paserk::SealedKey::<V>::from_str(&s).ok().and_then(|x| x.unseal(&key).ok()).is_some());
+                }
+            }
+        }
+    }
+    format!("{ok}/{err}")
 }
